@@ -83,12 +83,19 @@ def signature_grid():
         rows.append(("csr.Signature", {"addr_width": aw, "data_width": dw}, lambda aw=aw, dw=dw: csr.Signature(addr_width=aw, data_width=dw)))
     for w, acc in itertools.product([0, 1, 8, 12], ["r", "w", "rw"]):
         rows.append(("csr.Element.Signature", {"width": w, "access": acc}, lambda w=w, acc=acc: csr.Element.Signature(w, acc)))
-    for shp, acc in itertools.product([unsigned(0), unsigned(5), signed(5), gpio.PinMode, 8], ["r", "w", "rw", "nc"]):
+    # the same cast shape in several spellings (an enum and its width, an int and unsigned(n), a range): equal signatures
+    for shp, acc in itertools.product([unsigned(0), 0, unsigned(5), range(32), signed(5), range(-16, 16), gpio.PinMode, unsigned(2), range(4), 8, unsigned(8)],
+                                      ["r", "w", "rw", "nc"]):
         rows.append(("csr.FieldPort.Signature", {"shape": repr(Shape.cast(shp)), "access": acc}, lambda shp=shp, acc=acc: csr.FieldPort.Signature(shp, acc)))
     for aw, (dw, gran), f in itertools.product([0, 5], [(8, 8), (32, 8), (32, 32)], range(64)):
         fs = frozenset(x for k, x in enumerate(FEATS) if (f >> k) & 1)
         rows.append(("wishbone.Signature", {"addr_width": aw, "data_width": dw, "granularity": gran, "features": tuple(sorted(fs))},
                      lambda aw=aw, dw=dw, gran=gran, fs=fs: wishbone.Signature(addr_width=aw, data_width=dw, granularity=gran, features=fs)))
+        if aw == 5 and (dw, gran) == (32, 8):
+            # the same feature set in other spellings: Feature members, a list, a frozenset of strings
+            for spell in (lambda fs: {wishbone.Feature(x) for x in fs}, lambda fs: sorted(fs), lambda fs: frozenset(str(x) for x in fs)):
+                rows.append(("wishbone.Signature", {"addr_width": aw, "data_width": dw, "granularity": gran, "features": tuple(sorted(fs))},
+                             lambda aw=aw, dw=dw, gran=gran, fs=fs, spell=spell: wishbone.Signature(addr_width=aw, data_width=dw, granularity=gran, features=spell(fs))))
     for trg in ["level", "rise", "fall"]:
         rows.append(("event.Source.Signature", {"trigger": trg}, lambda trg=trg: event.Source.Signature(trigger=trg)))
     rows.append(("gpio.PinSignature", {}, lambda: gpio.PinSignature()))
